@@ -1,10 +1,66 @@
-(* C03 — five-card ranking is the poker order. *)
-From PF Require Import Base Comb ModelEval.
+(* C03 — five-card hand ranking is the poker order.
+   hand52 h      : five distinct cards, suits among the four suit symbols, ranks 2..14 (in any order)
+   class_of h    : (ranks sorted descending, all suits equal)
+   spec_cat      : the category by the rules of poker (multiplicities, five consecutive ranks or A-5-4-3-2)
+   spec_key pr c : category position in the variant's ranking table, then the tie-break vector
+                   (ranks by multiplicity then rank; straights by top card, the wheel five-high)
+   Both are defined in SpecPoker.v independently of the model of CalculatePower. *)
+From PF Require Import Base Comb ModelEval SpecPoker ProofsEval.
 From PF.Gen Require Import Consts.
 
-(* the generated rank table is the one the model and its specification were written against *)
+(* the evaluator gives the higher score to the hand that wins under the rules of poker and equal
+   scores exactly to hands that tie — for every pair of hands, under both shipped ranking tables *)
+Theorem C03_order :
+  forall pr h1 h2, shipped pr -> hand52 h1 -> hand52 h2 ->
+    (ps_score (calc_power pr h1) ?= ps_score (calc_power pr h2))
+    = (spec_key pr (class_of h1) ?= spec_key pr (class_of h2)).
+Proof. exact order_theorem. Qed.
+Print Assumptions C03_order.
+
+(* ... and names the category correctly *)
+Theorem C03_category :
+  forall pr h, shipped pr -> hand52 h ->
+    ps_comb (calc_power pr h) = spec_cat (fst (class_of h)) (snd (class_of h)).
+Proof. exact category_theorem. Qed.
+Print Assumptions C03_category.
+
+(* the generated tables are the ones of the two variants: flush above full house in short deck *)
+Theorem C03_variant_tables :
+  index_of power_standard Flush 0 < index_of power_standard FullHouse 0 /\
+  index_of power_shortdeck FullHouse 0 < index_of power_shortdeck Flush 0 /\
+  (forall c, 0 <= index_of power_standard c 0 <= 8 /\ 0 <= index_of power_shortdeck c 0 <= 8).
+Proof. split; [reflexivity|split; [reflexivity|]]. intros c. destruct c; vm_compute; intuition discriminate. Qed.
+Print Assumptions C03_variant_tables.
+
+(* the rank symbols map to the ranks the specification speaks about *)
 Theorem C03_card_rank_table :
   card_rank_table = [(50, 2); (51, 3); (52, 4); (53, 5); (54, 6); (55, 7); (56, 8); (57, 9);
                      (65, 14); (74, 11); (75, 13); (81, 12); (84, 10)].
 Proof. reflexivity. Qed.
 Print Assumptions C03_card_rank_table.
+
+(* non-vacuity and a reading aid: concrete hands (S=83 H=72 D=68 C=67) *)
+Example C03_example_hands :
+  let sf := [(83, 14); (83, 13); (83, 12); (83, 11); (83, 10)] in       (* royal flush *)
+  let wheel := [(83, 14); (72, 2); (68, 3); (67, 4); (83, 5)] in         (* A-2-3-4-5 *)
+  let six_high := [(83, 2); (72, 3); (68, 4); (67, 5); (83, 6)] in       (* 2-3-4-5-6 *)
+  let fh := [(83, 9); (72, 9); (68, 9); (67, 4); (83, 4)] in             (* nines full of fours *)
+  let fl := [(72, 2); (72, 9); (72, 11); (72, 4); (72, 7)] in            (* jack-high flush *)
+  hand52 sf /\ hand52 wheel /\ hand52 fh /\ hand52 fl /\
+  spec_key power_standard (class_of wheel) < spec_key power_standard (class_of six_high) /\
+  spec_key power_standard (class_of fl) < spec_key power_standard (class_of fh) /\
+  spec_key power_shortdeck (class_of fh) < spec_key power_shortdeck (class_of fl) /\
+  spec_key power_standard (class_of fh) < spec_key power_standard (class_of sf).
+Proof.
+  assert (H52 : forall h, length h = 5%nat ->
+            (forallb (fun c => zmem (c_suit c) card_suits && (2 <=? c_rank c) && (c_rank c <=? 14)) h = true) ->
+            NoDup h -> hand52 h).
+  { intros h Hl Hv Hn. split; [exact Hl|split; [exact Hn|]].
+    apply Forall_forall. intros c Hc. rewrite forallb_forall in Hv. specialize (Hv c Hc).
+    apply andb_prop in Hv as [Hv H3]. apply andb_prop in Hv as [H1 H2].
+    split; [apply ProofsEval.zmem_In; exact H1|]. apply Z.leb_le in H2. apply Z.leb_le in H3. auto. }
+  cbv zeta.
+  repeat split; try (vm_compute; reflexivity);
+    (apply H52; [reflexivity|vm_compute; reflexivity|
+       repeat constructor; simpl; intuition congruence]).
+Qed.
